@@ -338,6 +338,7 @@ class Gen:
         # statement's assignment (stmt_used holds the assignment target)
         self.stmt_used = set()
         self.stmt_lent = set()
+        self.str_cat_budget = 6           # concatenating string assignments left in this program
 
     def feat(self, k):
         self.features[k] = self.features.get(k, 0) + 1
@@ -628,6 +629,14 @@ class Gen:
         if c == "assign":
             x, t = r.choice(assignable)
             self.stmt_used.add(x)
+            if t == "str":
+                # strings grow under concatenation: `s = s + s` in a loop (or a dozen times in a row) doubles the length each
+                # time; assignments in loops take a literal or a variable, elsewhere a bounded number of concatenations
+                if inloop or self.str_cat_budget <= 0:
+                    vs = self.vars_of(env, "str")
+                    return ("assign", x, ("var", r.choice(vs)) if (vs and r.random() < 0.5) else self.str_expr(env, 0))
+                self.str_cat_budget -= 1
+                return ("assign", x, self.str_expr(env, 1))
             return ("assign", x, self.expr(t, env, r.randint(0, 3)))
         if c == "assignf":
             x, ty = r.choice(sassignable)
@@ -852,6 +861,7 @@ class Gen:
     def program(self):
         r = self.rng
         self.fns = []
+        self.str_cat_budget = 6
         prog = []
         for k in range(r.randint(0, 3)):
             prog.append(self.function(k))
